@@ -68,6 +68,13 @@ def check_interval_view(ctx, A, B, blocks, strand, cs, ce, g, what, cst="+"):
     if not ctx.true(what + ":hit_not_empty", not crl.is_empty, repr(crl)):
         return inside
     ctx.eq(what + ":chunk_relative_positions", rm.loc_positions(crl), [dn(p) for p in inside])
+    # the interval itself answers the ancestor questions of the location it carries: it sits on the chunk, the twin does not
+    try:
+        anc = B.first_ancestor_of_type("sequence_chunk")
+        ctx.eq(what + ":first_ancestor_is_the_chunk", str(anc.sequence), g[cs:ce] if cst == "+" else rm.revcomp(g[cs:ce]))
+        ctx.eq(what + ":ancestor_flags", (B.has_ancestor_of_type("sequence_chunk"), B.has_ancestor_of_type("chromosome"), A.has_ancestor_of_type("sequence_chunk")), (True, True, False))
+    except BioCantorException as e:
+        ctx.fail(what + ":first_ancestor_of_type_raises", repr(e)[:100])
     ctx.eq(what + ":chunk_relative_strand", rm.loc_strand(crl), rm.compose(strand, cst))
     back = B.lift_over_to_first_ancestor_of_type("chromosome")
     ctx.eq(what + ":lifted_back", rm.loc_positions(back), inside)
